@@ -393,12 +393,12 @@ func applyFault(f faultJ, at int, tx *corazawaf.Transaction, we *wafEnv, c cfgJ,
 	wrap = func(g func()) { g() }
 	un = func() {}
 	fail := func(kind, tgt string, gone int) string {
-		return fmt.Sprintf("InjFail %d%%nat %s %s %d%%nat", at, kind, tgt, gone)
+		return fmt.Sprintf("InjFail %d %s %s %d", at, kind, tgt, gone)
 	}
 	switch f.M {
 	case "fsize":
 		wrap = func(g func()) { withLimit(f.Limit, g) }
-		terms = append(terms, fmt.Sprintf("InjLimit %d%%nat TSpill %d%%nat", at, f.Limit), fmt.Sprintf("InjLimit %d%%nat TUpload %d%%nat", at, f.Limit))
+		terms = append(terms, fmt.Sprintf("InjLimit %d TSpill %d", at, f.Limit), fmt.Sprintf("InjLimit %d TUpload %d", at, f.Limit))
 		// the audit writes of a logging call under a limit of 0 fail as a whole
 		if f.Limit == 0 {
 			terms = append(terms, fail("OWrite", "TAuditSerial", 0), fail("OWrite", "TAuditRec", 0))
@@ -407,7 +407,7 @@ func applyFault(f faultJ, at int, tx *corazawaf.Transaction, we *wafEnv, c cfgJ,
 	case "idx":
 		wrap = func(g func()) { withLimit(idxLimit, g) }
 		terms = append(terms, fail("OWrite", "TAuditIdx", 0),
-			fmt.Sprintf("InjLimit %d%%nat TSpill %d%%nat", at, idxLimit), fmt.Sprintf("InjLimit %d%%nat TUpload %d%%nat", at, idxLimit))
+			fmt.Sprintf("InjLimit %d TSpill %d", at, idxLimit), fmt.Sprintf("InjLimit %d TUpload %d", at, idxLimit))
 		note = "idx"
 	case "hswap":
 		fh, name := tx.VerifC20Spill(false)
@@ -700,7 +700,7 @@ func oracles(c *caseJ, out *runOut, we *wafEnv, tx2 *corazawaf.Transaction, preT
 		case "p":
 			processed := prev.Phase == 1 && o.Phase == 2 && o.Len > 0
 			// a failed read of the spilled body is never taken for an inspected body
-			if processed && hasFault(c, out, i, "hswap") && c.Cfg.Proc != "none" && prev.Spilled || (processed && k.K == "w" && hasFault(c, out, i, "hswap") && c.Cfg.Proc != "none") {
+			if processed && k.K == "p" && prev.Spilled && hasFault(c, out, i, "hswap") && c.Cfg.Proc != "none" {
 				if !o.RbErr || !o.RbPErr || o.P2 != prev.P2+1 || !o.E || !contains(o.Logs, "LgProc") {
 					bad("c20-read-fault-not-surfaced", fmt.Sprintf("call %d: the spill file could not be read but REQBODY_ERROR=%v REQBODY_PROCESSOR_ERROR=%v phase-2 runs %d->%d tx.e=%v logs=%v", i, o.RbErr, o.RbPErr, prev.P2, o.P2, o.E, o.Logs))
 				}
@@ -897,10 +897,13 @@ func buildMultipart(parts []partSpec, tail string) []byte {
 
 // ---- Coq terms ---------------------------------------------------------------------------------
 
+// the shards open nat_scope (Prelude), so naturals are printed bare
+func nat(n int) string { return fmt.Sprintf("%d", n) }
+
 func natList(l []int) string {
 	it := make([]string, len(l))
 	for i, n := range l {
-		it[i] = vh.Nat(n)
+		it[i] = nat(n)
 	}
 	return vh.List(it)
 }
@@ -909,7 +912,7 @@ func cfgTerm(c cfgJ) string {
 	keep := map[string]string{"off": "KOff", "relevant": "KRelevant", "on": "KOn"}[c.Keep]
 	proc := map[string]string{"none": "PNone", "url": "PUrl", "json": "PJson", "multipart": "PMultipart"}[c.Proc]
 	audit := map[string]string{"off": "AOff", "serial": "ASerial", "concurrent": "AConcurrent"}[c.Audit]
-	return fmt.Sprintf("(mkcfg %s %s %s %s %s %s %s %s %s)", vh.Nat(int(c.Limit)), vh.Nat(int(c.Mem)), vh.Bool(c.Reject), keep, proc, audit, vh.Bool(c.AuditC), vh.Nat(c.Deny), vh.Bool(c.LogRule))
+	return fmt.Sprintf("(mkcfg %s %s %s %s %s %s %s %s %s)", nat(int(c.Limit)), nat(int(c.Mem)), vh.Bool(c.Reject), keep, proc, audit, vh.Bool(c.AuditC), nat(c.Deny), vh.Bool(c.LogRule))
 }
 
 func obsTerm(o obsJ) string {
@@ -921,9 +924,9 @@ func obsTerm(o obsJ) string {
 		logs[i] = l
 	}
 	return fmt.Sprintf("(mkobs %s %s %s %s %s %s %s %s %s %s %s %s %s %s %s %s %s %s)",
-		vh.Bool(o.Err), vh.Bool(o.Intr), vh.Nat(o.Phase), vh.Bool(o.Inbound), vh.Bool(o.RbErr), vh.Bool(o.RbPErr), vh.Bool(o.MpStrict),
-		vh.Nat(o.P2), vh.Bool(o.E), vh.Nat(o.NTmp), vh.Nat(o.NFiles), vh.Nat(o.Len), vh.Nat(o.MemLen), vh.Bool(o.Spilled),
-		vh.List(logs), natList(o.Tmp), natList(o.Up), vh.Nat(o.Open))
+		vh.Bool(o.Err), vh.Bool(o.Intr), nat(o.Phase), vh.Bool(o.Inbound), vh.Bool(o.RbErr), vh.Bool(o.RbPErr), vh.Bool(o.MpStrict),
+		nat(o.P2), vh.Bool(o.E), nat(o.NTmp), nat(o.NFiles), nat(o.Len), nat(o.MemLen), vh.Bool(o.Spilled),
+		vh.List(logs), natList(o.Tmp), natList(o.Up), nat(o.Open))
 }
 
 func caseTerm(c *caseJ, out *runOut) string {
@@ -950,7 +953,7 @@ func caseTerm(c *caseJ, out *runOut) string {
 	parts := make([]string, len(out.parts))
 	for i, p := range out.parts {
 		if p.File {
-			parts[i] = fmt.Sprintf("PtFile %s", vh.Nat(p.Size))
+			parts[i] = fmt.Sprintf("PtFile %s", nat(p.Size))
 		} else {
 			parts[i] = "PtField"
 		}
@@ -959,7 +962,7 @@ func caseTerm(c *caseJ, out *runOut) string {
 	for i, o := range out.obs {
 		obs[i] = obsTerm(o)
 	}
-	fin := fmt.Sprintf("(mkfin %s %s %s %s %s)", vh.Bool(out.fin.Ok), natList(out.fin.Tmp), natList(out.fin.Up), vh.Nat(out.fin.Open), vh.Bool(out.fin.Clean))
+	fin := fmt.Sprintf("(mkfin %s %s %s %s %s)", vh.Bool(out.fin.Ok), natList(out.fin.Tmp), natList(out.fin.Up), nat(out.fin.Open), vh.Bool(out.fin.Clean))
 	return fmt.Sprintf("Case %s %s %s (mkpr %s %s) %s %s %s %s", cfgTerm(c.Cfg), natList(c.PreTmp), natList(c.PreUp),
 		vh.List(parts), vh.Bool(out.pok), vh.List(out.injs), vh.List(calls), vh.List(obs), fin)
 }
@@ -1039,7 +1042,7 @@ func genShape(r *rand.Rand, i int) shape {
 		s.kind += "/disk"
 	}
 	// limit: far, or hit (reject / partial)
-	switch r.Intn(6) {
+	switch r.Intn(9) {
 	case 0:
 		s.cfg.Limit = int64(1 + r.Intn(n+1))
 		s.cfg.Reject = true
@@ -1141,7 +1144,7 @@ func Run(cfg vh.Config) (*vh.Result, error) {
 			return nil
 		}
 		si, err := vh.WriteShard(cfg.OutDir, vh.Shard{Name: fmt.Sprintf("C20_%d", shardN), Imports: "From Verif Require Import Base Faults CorrC20.",
-			CaseType: "CorrC20.case", MismatchF: "CorrC20.mismatches", Terms: terms, Cases: cases})
+			CaseType: "CorrC20.case", MismatchF: "CorrC20.mismatches", Terms: terms, Cases: cases, Prelude: "Local Open Scope nat_scope."})
 		if err != nil {
 			return err
 		}
@@ -1192,7 +1195,7 @@ func Run(cfg vh.Config) (*vh.Result, error) {
 		if len(res.Samples) < 6 && len(out.applied) > 0 && res.Evaluations%37 == 0 {
 			res.Samples = append(res.Samples, c)
 		}
-		if len(terms) >= 1500 {
+		if len(terms) >= 200 {
 			return flush()
 		}
 		return nil
@@ -1237,7 +1240,7 @@ func Run(cfg vh.Config) (*vh.Result, error) {
 		res.InputDistribution["corpus"]++
 	}
 	r := vh.Rng(cfg.Seed, "c20")
-	nShapes := cfg.Pick(22, 520)
+	nShapes := cfg.Pick(16, 420)
 	for i := 0; i < nShapes; i++ {
 		s := genShape(r, i)
 		res.InputDistribution["shape:"+s.kind]++
